@@ -1,11 +1,11 @@
 ----------------------------- MODULE MCProxyGen -----------------------------
 (* Enumeration of proxy method declarations for C12 (exported for the corpus generator) and the
-   model-level laws of ProxyGen over the whole (unsampled) space:
-     LegalMethodName   the PascalCase of every snake_case Rust name is a legal Varlink member name
-     OmitsOnlyNone     the parameters object lists exactly the arguments that are not None
+   model-level laws of ProxyGen:
+     LegalMethodName   the PascalCase of every snake_case Rust name of the name space is a legal Varlink member name
+     OmitsOnlyNone     (every drawn declaration) the parameters object lists exactly the arguments that are not None
      FormsAgree        (by construction) the expectation does not depend on the call form *)
 EXTENDS ProxyGen, Json, Randomization
-CONSTANTS NDecl, NPair, NLong
+CONSTANTS NDecl
 
 Names == {<<"ping">>, <<"x">>, <<"v2">>, <<"get", "info">>, <<"get", "2fa">>, <<"do", "it">>, <<"url", "of", "x9">>,
           <<"a", "b", "c", "d">>, <<"get", "user", "info", "v2">>, <<"list", "all", "3d", "items">>}
@@ -18,15 +18,24 @@ PRen == <<"wireName", "type", "kebab-name", "X">>
 Mk(choices) == [i \in 1..Len(choices) |->
                   [name |-> PNames[i], rename |-> IF choices[i].ren THEN PRen[i] ELSE "", cls |-> choices[i].cls,
                    none |-> choices[i].none]]
-ParamLists == {<<>>} \cup {<<c>> : c \in PC}
-              \cup RandomSubset(NPair, {<<c1, c2>> : c1 \in PC, c2 \in PC})
-              \cup [1..3 -> RandomSubset(NLong, PC)] \cup [1..4 -> RandomSubset(NLong - 1, PC)]
 HasRef(ps) == \E i \in 1..Len(ps) : ps[i].cls \in {"str", "opt", "slice", "strslice", "struct"}
-All == {[iface |-> "org.example.px", words |-> n, rename |-> rn, kind |-> k,
-         lt |-> IF lt = "explicit" /\ HasRef(ps) THEN "explicit" ELSE "elided", params |-> Mk(ps),
-         out |-> IF k = "oneway" THEN "unit" ELSE o] :
-        n \in Names, rn \in Renames, k \in Kinds, lt \in {"elided", "explicit"}, ps \in ParamLists, o \in {"unit", "struct"}}
-Picked == RandomSubset(NDecl, All)
+\* one declaration drawn at random from the space (TLC's -seed decides): every component is drawn
+\* independently, so all pairs of component values occur with a few hundred draws
+RandomDecl(i) ==
+    LET n == RandomElement(Names)
+        rn == RandomElement(Renames)
+        k == RandomElement(Kinds)
+        lt == RandomElement({"elided", "explicit"})
+        o == RandomElement({"unit", "struct"})
+        len == IF i % 10 = 0 THEN 0 ELSE RandomElement(1..4)       \* (a tenth without parameters)
+        ps == [j \in 1..len |-> RandomElement(PC)]
+    IN [iface |-> "org.example.px", words |-> n, rename |-> rn, kind |-> k,
+        lt |-> IF lt = "explicit" /\ HasRef(ps) THEN "explicit" ELSE "elided", params |-> Mk(ps),
+        out |-> IF k = "oneway" THEN "unit" ELSE o]
+\* every class once as a single parameter, renamed and not (so that no row depends on the draw)
+Singles == {[iface |-> "org.example.px", words |-> <<"get", "info">>, rename |-> "", kind |-> "plain", lt |-> "elided",
+             params |-> Mk(<<c>>), out |-> "struct"] : c \in PC}
+Picked == Singles \cup {RandomDecl(i) : i \in 1..NDecl}
 
 \* Varlink member names: [A-Z][A-Za-z0-9]*
 DigitS == "0123456789"
